@@ -513,7 +513,7 @@ SHAPE = {"quick": ["-families", "shape", "-n", "1", "-faults", "none", "-maxruns
          "thorough": ["-families", "shape", "-n", "4", "-faults", "none", "-maxruns", "40000", "-shards", "14"]}
 SHAPE_RULE = "; structural variants: each of actor / object / target / to / cc / bto / bcc / audience / id / type / inReplyTo / attributedTo of a valid request of every inbox and outbox type made absent, empty, doubled, a plain string, an embedded value without id"
 AGAIN = {"quick": ["-families", "again", "-n", "16", "-faults", "none", "-shards", "2"], "thorough": ["-families", "again", "-n", "160", "-faults", "single", "-shards", "8"]}
-FOCUS_FAULTS = {"quick": ["-families", "fedfocus", "-n", "2", "-faults", "single", "-maxruns", "4000", "-shards", "8"],
+FOCUS_FAULTS = {"quick": ["-families", "fedfocus", "-n", "3", "-faults", "single", "-maxruns", "4000", "-shards", "8"],
                 "thorough": ["-families", "fedfocus", "-n", "20", "-faults", "single", "-maxruns", "40000", "-shards", "14"]}
 GATE = {"quick": ["-families", "gate", "-gate", "600"], "thorough": ["-families", "gate", "-gate", "0", "-maxruns", "40000"]}
 
@@ -656,7 +656,8 @@ def check_C04(ctx):
                         {"monitors": ["fed_bad", "diverge_bad", "targets_bad"], "classify": classify,
                          "rule": "each handled activity type with 1..3 objects / targets / actors as IRIs or embedded values, owned or not, ordered / unordered collections, absent or present likes / shares, OnFollow in {nothing, accept, reject}, no / wrapped / overriding application callback; every single fault; own_step / eff_step / quiet predicates evaluated on the callback segment of each real trace"},
                         family_filter=lambda f: f.startswith(("inbox:", "shape:inbox:")),
-                        run_specs=[("shape", SHAPE[ctx.tier]), ("fedfocus", ["-families", "fedfocus", "-n", "10" if ctx.tier == "quick" else "200", "-faults", "none", "-maxruns", "20000"]), ("std", PUB_STD[ctx.tier])])
+                        run_specs=[("shape", SHAPE[ctx.tier]), ("fedfocus", ["-families", "fedfocus", "-n", "10" if ctx.tier == "quick" else "200", "-faults", "none", "-maxruns", "20000"]),
+                                   ("focusfaults", FOCUS_FAULTS[ctx.tier]), ("std", PUB_STD[ctx.tier])])
 
 
 def replay_C04(ctx):
